@@ -421,6 +421,8 @@ func runC09(p *Prog, r *Report) {
 	ruleGenReaders(p, r, "R-GEN", func(f *ssa.Function) bool { return fnPkg(f) != nil && rgenPk[fnPkg(f).Path()] }, rgenNotClaimed, 300)
 	r.Explain = append(r.Explain, "R-IDX (regression rule over accesses to slices of ANY element type in the hand-written code of the five font packages): each access key (function / indexed field) of the frozen set sa/ridx_tables.go — the accesses whose bounds P-LIN derived from the function's own dominating tests on the pinned tree — is still derivable. Accesses that are safe because of invariants established elsewhere (sanitizers, parallel arrays) are outside the set and decide nothing.")
 	ruleIdx(p, r, "R-IDX", []string{"font/opentype/tables", "font/cff", "font/opentype", "font", "font/cff/interpreter"}, ridxFont, 80)
+	nilExplain(r)
+	ruleNil(p, r, "R-NIL", p.pkgPath("font/opentype/tables"), []string{p.pkgPath("font/opentype/tables"), p.pkgPath("font")}, 20, 30)
 	r.Assumptions = append(r.Assumptions,
 		"R-GEN models int as 64 bits and does not model overflow of offset arithmetic; accesses to slices of other element types (parsed records) are NOT covered",
 		"termination of loops and absence of index-out-of-range panics on parsed (non-byte) structures in the ~9000 lines of hand-written table processing are NOT decided",
@@ -430,6 +432,7 @@ func runC09(p *Prog, r *Report) {
 
 func controlsC09(cp *Prog, r *Report) {
 	controlsRec(cp, r)
+	controlsNil(cp, r)
 	expectControl(r, "R-ALLOC", func(cr *Report) {
 		ruleAlloc(cp, cr, allocCfg{pkgs: []string{"rd"}, dataPkgs: []string{"rd"}, floor: 2})
 	}, "(*rd.Loader).tableBad", "rd.parseBad", "rd.parseWrapBad")
